@@ -1336,6 +1336,12 @@ impl TensorStore {
 
         // Clear current and copy data from new router
         self.router.clear();
+        // State that is not reachable through keys: relational tables/rows, graph slab, blob log.
+        self.router
+            .relations
+            .replace_with(new_router.relations.snapshot());
+        self.router.graph.replace_with(new_router.graph.snapshot());
+        self.router.blobs.replace_with(new_router.blobs.snapshot());
         for key in new_router.scan("") {
             if let Ok(value) = new_router.get(&key) {
                 // Best-effort restore - continue even if individual entries fail
